@@ -472,6 +472,38 @@ pub fn enumerate(tier: Tier) -> Vec<Case> {
         }
     }
 
+    // --- 2d. uniform violation: every row of a completely full domain violated
+    // by the same amount (the division remainder is then a non-zero CONSTANT, the
+    // boundary case of the prover's degree-based unsatisfied-circuit check)
+    for total in [8usize, 16] {
+        for (dn, delta) in [("1", one()), ("rho", rho)] {
+            let Some(script) = uniform_init_script(delta) else { continue };
+            let n_user = total - init_rows();
+            let mut r = RowSpec::zero();
+            r.q[QARITH] = one();
+            r.q[QL] = one();
+            let mut rows = vec![];
+            for k in 0..n_user {
+                let mut rk = r.clone();
+                rk.q[QC] = -fe(10 + k as u64);
+                rows.push(rk);
+            }
+            let lay = Layout { rows, share: vec![], place: Place::LastOfFull(total) };
+            let mk = |d: Fe, with_script: bool| {
+                let vals: Vec<[Fe; 4]> = (0..n_user).map(|k| [fe(10 + k as u64) + d, zero(), zero(), zero()]).collect();
+                let mut a = Assign::new(vals, vec![zero(); n_user]);
+                if with_script {
+                    a.script = script.clone();
+                }
+                a
+            };
+            cases.push(Case { name: format!("uniform/n{}/delta{}/all-rows", total, dn), lay: lay.clone(), asg: mk(delta, true) });
+            // controls: only the user rows, only the initial rows
+            cases.push(Case { name: format!("uniform/n{}/delta{}/user-rows-only", total, dn), lay: lay.clone(), asg: mk(delta, false) });
+            cases.push(Case { name: format!("uniform/n{}/delta{}/init-rows-only", total, dn), lay: lay.clone(), asg: mk(zero(), true) });
+        }
+    }
+
     // --- 3. copy constraints -----------------------------------------------------
     let dists: Vec<usize> = tier.pick(vec![0, 1], vec![0, 1, 2]);
     for dist in dists {
@@ -599,6 +631,11 @@ pub fn main(tier: Tier, replay: Option<serde_json::Value>) -> i32 {
         };
         layouts.insert(o.lay_key);
         run.traces_validated += 1;
+        if let Ok(pref) = std::env::var("VERIF_TRACE") {
+            if o.name.starts_with(&pref) {
+                eprintln!("TRACE {} model={:?} real={:?}", o.name, o.verdict, o.real);
+            }
+        }
         match o.cancel_ok {
             Some(true) => run.outcome("crafted:cancelling-pair"),
             Some(false) => run.machinery(format!("crafted case {} is not a cancelling residual pair", o.name)),
@@ -650,6 +687,7 @@ pub fn main(tier: Tier, replay: Option<serde_json::Value>) -> i32 {
     run.gate(">=1 case breaking only a copy constraint", copy_only > 0);
     run.gate(">=1 satisfied case", run.count("model:satisfied") > 0);
     run.gate("cancelling residual pairs constructed", run.count("crafted:cancelling-pair") >= 50);
+    run.gate("uniform-violation cases constructed", cases.iter().filter(|c| c.name.starts_with("uniform/") && c.name.ends_with("all-rows")).count() >= 2);
     run.gate(">=1 size mismatch case", run.count("model:size-mismatch") > 0);
     run.extra.insert("only_failing_component_counts".into(), json!(COMPONENT_NAMES.iter().zip(only_fail.iter()).map(|(n, c)| (n.to_string(), *c)).collect::<std::collections::BTreeMap<_, _>>()));
     run.extra.insert("copy_only_cases".into(), json!(copy_only));
